@@ -669,3 +669,124 @@ def run(ctx) -> None:
     _r_shift(ctx, repo)
     _r_parity(ctx, repo)
     _r_bandlimit(ctx, repo)
+
+
+# ---- added after the mutation sweep (sweepF): the limits the coordinates are built from, the number of points of an
+# ---- angle-limited pattern, the guard of the crop, the margin of block_direct
+_inner_run_c14b = run
+
+
+def _run_deferring(ctx, steps, inner) -> None:
+    """Run the new rule groups, then the earlier rules; an AnalysisError of a new group is raised only afterwards, so
+    that a violation found by any rule decides the run and a lost anchor of one group does not hide the others."""
+    pending = None
+    for step in steps:
+        try:
+            step()
+        except AnalysisError as e:
+            pending = pending or e
+    inner(ctx)
+    if pending is not None:
+        raise pending
+
+
+def _angle_gpts(ctx, repo) -> None:
+    from ..rules.ratfun import RatFlow
+
+    gw = repo.method(WAVES, "BaseWaves", "_gpts_within_angle")
+    df = DataFlow(gw.node)
+    ctx.require("angle" in gw.params, f"{gw.qualname}: parameter `angle` not found")
+    cands = []
+    for st in walk_no_nested(gw.node):
+        if isinstance(st, ast.Assign) and isinstance(st.value, ast.Tuple) and len(st.value.elts) == 2:
+            sl = df.backward_slice(df.cfg.node_of(st).idx, st.value)
+            if "angle" in sl.params:
+                cands.append(st)
+    ctx.require(len(cands) == 1, f"{gw.qualname}: expected one numeric (angle -> points) arm, found {len(cands)}")
+    st = cands[0]
+    rounding = {f"{m}.{fn}" for m in ("np", "xp", "math") for fn in ("ceil", "floor", "round", "rint")} | {"int", "round"}
+    nz = RatFlow(df, df.cfg.node_of(st).idx, identity_calls=rounding)
+    for k, el in enumerate(st.value.elts):
+        n = nz.rat(el)
+        half = (n - nz.rat(ast.parse("1", mode="eval").body)) / nz.rat(ast.parse("2", mode="eval").body)
+        want = nz.rat(ast.parse(f"angle / self.angular_sampling[{k}]", mode="eval").body)
+        ctx.check(half == want, "R-ANGLEGPTS", f"{gw.qualname}:axis {k}", gw.loc(el),
+                  f"points along axis {k} = 2 * round-up(angle / angular_sampling[{k}]) + 1",
+                  f"along axis {k} the angle-limited pattern gets {n.key()[:90]} points (rounding aside); a pattern that "
+                  f"reaches `angle` on both sides of the centre pixel has 2 * (angle / angular_sampling[{k}]) + 1: the "
+                  "crop does not end at the requested maximum angle", key_detail="points")
+
+
+def _crop_guard(ctx, repo) -> None:
+    f = repo.method(WAVES, "Waves", "_diffraction_pattern")
+    crops = [c for c in walk_no_nested(f.node) if isinstance(c, ast.Call) and last_attr(c) == "fft_crop"]
+    ctx.require(len(crops) == 1, f"{f.qualname}: one fft_crop call expected")
+    st = _stmt_of(f, crops[0])
+    guards = [n for n in walk_no_nested(f.node) if isinstance(n, ast.If)
+              and any(x is st for b in (n.body + n.orelse) for x in ast.walk(b))]
+    if not guards:
+        ctx.ok("R-CROPGUARD", f"{f.qualname}:crop", f.loc(crops[0]), "the crop is unconditional")
+        return
+    ctx.require(len(guards) == 1, f"{f.qualname}: the crop sits under nested conditions")
+    g = guards[0]
+    in_body = any(x is st for b in g.body for x in ast.walk(b))
+    t, neg = g.test, False
+    while isinstance(t, ast.UnaryOp) and isinstance(t.op, ast.Not):
+        t, neg = t.operand, not neg
+    ctx.require(isinstance(t, ast.Compare) and len(t.ops) == 1 and isinstance(t.ops[0], (ast.Eq, ast.NotEq)),
+                f"{f.qualname}: the condition `{norm_text(g.test)[:50]}` of the crop is not a shape comparison")
+    sides = {norm_text(t.left), norm_text(t.comparators[0])}
+    ctx.require("new_gpts" in f.params and any(s.replace(" ", "") in ("array.shape[-2:]", "tuple(array.shape[-2:])")
+                                               for s in sides) and "new_gpts" in sides,
+                f"{f.qualname}: the crop condition does not compare array.shape[-2:] with new_gpts")
+    differs_when_true = isinstance(t.ops[0], ast.NotEq) != neg
+    ctx.check(differs_when_true == in_body, "R-CROPGUARD", f"{f.qualname}:crop", f.loc(g.test),
+              "the pattern is cropped exactly when its shape differs from the requested one",
+              f"under `{norm_text(g.test)[:50]}` fft_crop runs only when the shape already equals new_gpts and is skipped "
+              "when it differs: an angle-limited pattern is returned uncropped", key_detail="guard")
+
+
+def _margin(ctx, repo) -> None:
+    bd = repo.method(MEAS, DP, "block_direct")
+    if "margin" not in bd.params:
+        return
+    df = DataFlow(bd.node)
+    calls = [c for c in walk_no_nested(bd.node) if isinstance(c, ast.Call) and last_attr(c) == "bandlimit"]
+    ctx.require(len(calls) == 1, f"{bd.qualname}: one bandlimit call expected")
+    b = bind_args(calls[0], repo.method(MEAS, DP, "bandlimit"), skip_self=True)
+    ctx.require("inner" in b, f"{bd.qualname}: bandlimit called without inner")
+    at = df.cfg.node_of(_stmt_of(bd, calls[0])).idx
+    sl = df.backward_slice(at, b["inner"])
+    under_margin = []
+    for n in walk_no_nested(bd.node):
+        if isinstance(n, ast.If) and any(isinstance(x, ast.Name) and x.id == "margin" for x in ast.walk(n.test)):
+            for s in walk_no_nested(n):
+                if isinstance(s, (ast.Assign, ast.AugAssign)) and s is not n:
+                    try:
+                        idx = df.cfg.node_of(s).idx
+                    except AnalysisError:
+                        continue
+                    if idx in sl.def_nodes and not (isinstance(s, ast.Assign) and dotted(s.targets[0]) == "margin"):
+                        under_margin.append(s)
+    ctx.check(bool(under_margin), "R-BANDLIMIT", f"{bd.qualname}:margin-applied", bd.where,
+              "with margin set the blocking radius handed to bandlimit is changed under the margin test",
+              "no definition of the radius handed to bandlimit depends on `margin`: the documented margin (radius grown "
+              "by one pixel to block soft apertures fully) is never applied, fewer pixels are zeroed than the effective "
+              "blocking radius promises", key_detail="margin-applied")
+
+
+def run(ctx) -> None:  # noqa: F811
+    from ..rules import dplimits
+
+    repo = ctx.repo
+    ctx.rule("R-ANGLEGPTS", "the numeric arm of _gpts_within_angle gives axis k  2*h_k + 1 points with h_k a rounding of "
+             "angle / angular_sampling[k] (rational identity per axis, x with x and y with y): an odd, centre-symmetric "
+             "window whose outermost pixels lie at the requested maximum angle — 'cropped to a maximum angle'")
+    ctx.rule("R-CROPGUARD", "Waves._diffraction_pattern skips fft_crop only when the array already has the requested "
+             "shape")
+    ctx.rule("R-LIMITS", dplimits.RULE_TEXT)
+    _run_deferring(ctx, [lambda: dplimits.check_limits(ctx, "R-LIMITS", repo),
+                         lambda: dplimits.check_angular_limits(ctx, "R-LIMITS", repo),
+                         lambda: dplimits.check_angular_coordinates(ctx, "R-LIMITS", repo),
+                         lambda: _angle_gpts(ctx, repo), lambda: _crop_guard(ctx, repo), lambda: _margin(ctx, repo)],
+                   _inner_run_c14b)
